@@ -198,9 +198,48 @@ def c02(res, ctx):
             k += 1
     return dict(rule='(legal position, legal move) pairs; clocks drawn from {0..10^9}; successor FEN compared with FenSpec.render (Rules.apply ..) and with the model')
 
+def attack_configs(rng, tier):
+    """every (king square, attacker kind, attacker square) with only the two kings and the attacker on the board:
+    exercises every entry of every attack table from the king's side, incl. the wrap-around neighbours of the edge
+    files; the side to move is the attacked side, the other king stands far away"""
+    out = []
+    names = 'abcdefgh'
+    def sqn(s): return names[s % 8] + str(8 - s // 8)
+    kinds = 'pnbrq'
+    for white_attacked in (True, False):
+        for k in range(64):
+            others = [s for s in range(64) if max(abs(s % 8 - k % 8), abs(s // 8 - k // 8)) >= 3]
+            for kind in kinds:
+                cands = [a for a in range(64) if a != k and not (kind == 'p' and (a < 8 or a >= 56))]
+                if tier == 'quick' and kind in 'brq':
+                    cands = rng.sample(cands, 8)
+                elif tier == 'quick':
+                    # leapers and pawns: all squares at distance <= 2 plus the same / adjacent ranks (wrap-around candidates)
+                    cands = [a for a in cands if max(abs(a % 8 - k % 8), abs(a // 8 - k // 8)) <= 2 or abs(a // 8 - k // 8) <= 1]
+                for a in cands:
+                    ok = [s for s in others if s != a and max(abs(s % 8 - a % 8), abs(s // 8 - a // 8)) >= 1]
+                    if not ok: continue
+                    ok2 = rng.choice(ok)
+                    cells = ['.'] * 64
+                    cells[k] = 'K' if white_attacked else 'k'
+                    cells[ok2] = 'k' if white_attacked else 'K'
+                    cells[a] = kind if white_attacked else kind.upper()
+                    rows = []
+                    for r in range(8):
+                        row, e = '', 0
+                        for c in cells[8 * r: 8 * r + 8]:
+                            if c == '.': e += 1
+                            else:
+                                if e: row += str(e); e = 0
+                                row += c
+                        if e: row += str(e)
+                        rows.append(row)
+                    out.append('%s %s - - 0 1' % ('/'.join(rows), 'w' if white_attacked else 'b'))
+    return out
+
 def c05(res, ctx):
     rng = random.Random(res.seed)
-    ps = positions(res.seed, res.tier)
+    ps = positions(res.seed, res.tier) + attack_configs(rng, res.tier)
     impl, model = diff(res, 'check', ps)
     spec = V.run_model('spec-check', ps)
     k = 0
@@ -395,6 +434,24 @@ def fen_mutations(rng, valid, n):
         elif r < 0.94: s2 = ' ' + s if rng.random() < 0.5 else s + ' '; out.append(s2); continue
         else: out.append(s.replace(' ', '  ', 1)); continue
         out.append(' '.join(f))
+    # systematic rank faults at EVERY offset of a rank: two adjacent digits (sum still 8), and sums of 7 / 9
+    base = rng.sample(valid, min(len(valid), 6))
+    for s in base:
+        f = s.split(' ')
+        rows = f[0].split('/')
+        for o in range(0, 7):
+            for d1 in range(1, 8 - o):
+                for d2 in range(1, 9 - o - d1):
+                    rest = 8 - o - d1 - d2
+                    rank = 'P' * o + str(d1) + str(d2) + 'p' * rest
+                    ri = rng.randrange(1, 7)
+                    out.append(' '.join(['/'.join(rows[:ri] + [rank] + rows[ri + 1:])] + f[1:]))
+        for o in range(0, 8):
+            for total in (7, 9):
+                k = total - o
+                if 1 <= k <= 8:
+                    rank = 'n' * o + str(k)
+                    out.append(' '.join(['/'.join(rows[:3] + [rank] + rows[4:])] + f[1:]))
     return out
 
 def c12(res, ctx):
